@@ -95,9 +95,11 @@ Qed.
 Lemma stmt_no_ph : forall f, stmt_nph f.
 Proof.
   induction f as [f IH] using lt_wf_ind. intros s top k base Hh Hwf.
-  destruct s as [e|i e|e|c t e|c t|c b| |].
+  destruct s as [e|i e|i o e|i up|e|c t e|c t|c b| |].
   - cbn [stmt_code]. destruct (cexp base e). apply no_ph_I.
   - cbn [stmt_code]. destruct (cexp base e). apply no_ph_I.
+  - cbn [stmt_code]. destruct (cexp base e). apply no_ph_I.
+  - cbn [stmt_code fst]. apply no_ph_I.
   - cbn [stmt_code islots fst]. apply no_ph_I.
   - rewrite wf_SIf in Hwf. apply andb_true_iff in Hwf. destruct Hwf as [Hwct Hwe].
     apply andb_true_iff in Hwct. destruct Hwct as [Hwc Hwt].
